@@ -14,7 +14,7 @@
    installation between its update's begin and end; every snapshot between its execution's
    begin and end.  A statement "forall h" covers every interleaving. *)
 From Coq Require Import String List ZArith Bool Permutation Sorted.
-From GV Require Import Rules.KcModel Pool.Model Pool.Proofs.
+From GV Require Import Rules.KcModel Rules.KcCheck Pool.Model Pool.Proofs Engine.IR Engine.Hand Engine.Spec Pool.Compose Pool.ComposeFacts.
 Import ListNotations.
 
 (* 0. the vocabulary, restated so that a change of the definitions breaks this file *)
@@ -63,3 +63,67 @@ Theorem C07_example :
   wf_hist 3 h /\ version_at h 3 1 = Some 3 /\ version_at h 3 2 = Some 5.
 Proof. exact hist_example_ok. Qed.
 Print Assumptions C07_example.
+
+(* ---------- 5. the version an execution runs, made observable (Pool/Compose.v; proofs in Pool/ComposeFacts.v) ----------
+   The correspondence run evaluates [check_exec_set] on every observed execution: its returned (rule, body tag) entries must be
+   the result map that the ENGINE specification (Engine/Spec.v) assigns to its entry point on the rule container of ONE version
+   of the POOL model's management history (Pool/Model.v mstep), and that version must be admissible for the execution's
+   interval.  These theorems say what the check establishes. *)
+
+(* the check accepts exactly when some version k of the history is admissible and explains the whole returned map *)
+Theorem C07_check_means_one_admissible_version : forall s0 ops e,
+  runs_one_version s0 ops e = true <->
+  exists k, k <= length ops /\ admissible ops e k = true /\
+    same_entries (es_got e) (expected_result (es_shape e) (fold_left apply_obs (firstn k ops) s0)) = true.
+Proof. exact runs_one_version_spec. Qed.
+Print Assumptions C07_check_means_one_admissible_version.
+
+(* admissible = the two visibility inequalities (theorems 2 and 3) read on the observed call intervals: every management call
+   up to version k began before the execution ended, every later one had not returned before the execution began *)
+Theorem C07_admissible_meaning : forall ops e k,
+  admissible ops e k = true <->
+  (forall j o, nth_error ops j = Some o ->
+     (S j <= k -> oo_begin o < es_end e) /\ (k < S j -> es_begin e < oo_end o)).
+Proof. exact admissible_spec. Qed.
+Print Assumptions C07_admissible_meaning.
+
+(* "explains the whole map": same entries = same set of (rule, body tag) pairs *)
+Theorem C07_same_entries_meaning : forall a b, same_entries a b = true -> NoDup (map fst b) ->
+  forall n t, In (n, t) a <-> In (n, t) b.
+Proof. exact same_entries_spec. Qed.
+Print Assumptions C07_same_entries_meaning.
+
+(* all rules of that version and none of another: in the sort and concurrent models the expected map has one entry per rule of
+   the version's container, carrying that rule's body *)
+Theorem C07_sort_model_runs_the_whole_version : forall s n m names layers x,
+  m_clear s = false -> Inv (m_master s) -> sorted (m_master s) <> [] ->
+  (In x (expected_result (mkShape EExecute n m names layers) s) <->
+   exists r, In r (sorted (m_master s)) /\ x = (rname r, rbody r)).
+Proof. exact sort_model_returns_the_whole_version. Qed.
+Print Assumptions C07_sort_model_runs_the_whole_version.
+
+Theorem C07_concurrent_model_runs_the_whole_version : forall s n m names layers x,
+  m_clear s = false -> Inv (m_master s) -> sorted (m_master s) <> [] ->
+  (In x (expected_result (mkShape EExecuteConcurrent n m names layers) s) <->
+   exists r, In r (sorted (m_master s)) /\ x = (rname r, rbody r)).
+Proof. exact concurrent_model_returns_the_whole_version. Qed.
+Print Assumptions C07_concurrent_model_runs_the_whole_version.
+
+Theorem C07_cleared_pool_runs_nothing : forall sh s, m_clear s = true -> expected_result sh s = [].
+Proof. exact cleared_pool_returns_nothing. Qed.
+Print Assumptions C07_cleared_pool_runs_nothing.
+
+(* non-vacuity: rules pa(9) pb(6) pc(3) at version 1; "remove pa, pc" is called at 5 and returns at 8 while an execution of the
+   DAG model [[pa],[pb,pc]] runs from 2 to 12.  Returning the old version {pa,pb,pc} or the new one {pb} is accepted;
+   {pa,pb} — first layer from the old version, second layer from the new one — is rejected. *)
+Definition ex_rules := [mkRule "pa" 9 "v1" 1; mkRule "pb" 6 "v1" 1; mkRule "pc" 3 "v1" 1].
+Definition ex_ops := [mkOO (MRemove 0 ["pa"%string; "pc"%string]) 5 8 true].
+Definition ex_exec (got : list (string * Z)) :=
+  mkES 1 1 (mkShape EExecuteDAGModel 1 2 [] [["pa"%string]; ["pb"%string; "pc"%string]]) got 2 12.
+Theorem C07_example_torn_execution_rejected :
+  let s0 := mgmt_init 2 1 ex_rules idshuffle in
+  runs_one_version s0 ex_ops (ex_exec [("pa"%string, 1%Z); ("pb"%string, 1%Z); ("pc"%string, 1%Z)]) = true /\
+  runs_one_version s0 ex_ops (ex_exec [("pb"%string, 1%Z)]) = true /\
+  runs_one_version s0 ex_ops (ex_exec [("pa"%string, 1%Z); ("pb"%string, 1%Z)]) = false.
+Proof. vm_compute. repeat split. Qed.
+Print Assumptions C07_example_torn_execution_rejected.
